@@ -80,6 +80,7 @@ class Ctx:
         self.violations = []       # list of dict(mechanism, what, witness)
         self.known_hits = collections.OrderedDict()   # mechanism -> dict(what, count)
         self.inconclusive_reasons = []
+        self.requirements = []     # (kind, name, minimum): evaluated on the merged counters in finish()
         self.extra = {}
         self.rule = ''
         self.assumptions = []
@@ -134,8 +135,35 @@ class Ctx:
         self.inconclusive_reasons.append(reason)
 
     def require_reach(self, name, minimum=1):
-        if self.reach.get(name, 0) < minimum:
-            self.inconclusive(f'reach:{name}={self.reach.get(name, 0)}<{minimum}')
+        self._need('reach', name, minimum)
+
+    def need_event(self, name, minimum=1):
+        self._need('event', name, minimum)
+
+    def need_class(self, name, minimum=1):
+        self._need('class', name, minimum)
+
+    def need_class_prefix(self, prefix, minimum=1):
+        """at least `minimum` distinct boundary classes whose name starts with prefix"""
+        self._need('class-prefix', prefix, minimum)
+
+    def _need(self, kind, name, minimum):
+        req = [kind, name, minimum]
+        if req not in self.requirements:
+            self.requirements.append(req)
+
+    def _check_requirements(self):
+        for kind, name, minimum in self.requirements:
+            if kind == 'event':
+                have = self.events.get(name, 0)
+            elif kind == 'reach':
+                have = self.reach.get(name, 0)
+            elif kind == 'class':
+                have = self.classes.get(name, 0)
+            else:
+                have = sum(1 for k in self.classes if k.startswith(name))
+            if have < minimum:
+                self.inconclusive(f'{kind} "{name}" observed {have} < {minimum}: the deciding monitor was not reached')
 
     # ---- (de)serialisation for shards ---------------------------------------
     def dump(self):
@@ -144,7 +172,7 @@ class Ctx:
             'samples': self.samples, 'events': dict(self.events), 'reach': dict(self.reach),
             'classes': dict(self.classes), 'violations': self.violations,
             'known_hits': self.known_hits, 'inconclusive': self.inconclusive_reasons,
-            'extra': jsonable(self.extra), 'rule': self.rule, 'assumptions': self.assumptions,
+            'requirements': self.requirements, 'extra': jsonable(self.extra), 'rule': self.rule, 'assumptions': self.assumptions,
             'exhaustive': self.exhaustive,
         }
 
@@ -163,6 +191,9 @@ class Ctx:
                                                  'witness': v.get('witness')})
             ent['count'] += v['count']
         self.inconclusive_reasons.extend(d['inconclusive'])
+        for r in d.get('requirements', []):
+            if r not in self.requirements:
+                self.requirements.append(r)
         for k, v in (d.get('extra') or {}).items():
             if isinstance(v, (int, float)) and isinstance(self.extra.get(k, 0), (int, float)):
                 self.extra[k] = self.extra.get(k, 0) + v
@@ -188,6 +219,7 @@ class Ctx:
         """Write evidence + replay, print the verdict lines, return the exit code."""
         os.makedirs(REPLAY_DIR, exist_ok=True)
         wall = time.time() - self.t0
+        self._check_requirements()
         if self.evaluations == 0:
             self.inconclusive('no case was evaluated')
         if len(self.signatures) < 2:
